@@ -52,8 +52,9 @@ class RawClient:
 
 
 class Pool:
-    def __init__(self, proj, ncores=2, write_config=True, extra_cfg=None, nofile=None):
+    def __init__(self, proj, ncores=2, write_config=True, extra_cfg=None, nofile=None, affinity=None):
         self.nofile = nofile  # soft RLIMIT_NOFILE of the pool process (None = inherited)
+        self.affinity = affinity  # set of CPUs the pool process (and its jobs) may run on (None = inherited)
         self.proj = proj
         self.ncores = ncores
         self.port = None
@@ -87,7 +88,7 @@ class Pool:
             stdout=open(self.log, "ab"),
             stderr=subprocess.STDOUT,
             start_new_session=True,
-            preexec_fn=(lambda: __import__("resource").setrlimit(__import__("resource").RLIMIT_NOFILE, (self.nofile, __import__("resource").getrlimit(__import__("resource").RLIMIT_NOFILE)[1]))) if self.nofile else None,
+            preexec_fn=self._preexec if (self.nofile or self.affinity) else None,
         )
         t0 = time.time()
         while time.time() - t0 < 20:
@@ -100,6 +101,14 @@ class Pool:
                     break
                 time.sleep(0.05)
         raise Inconclusive("worker pool did not come up: %s" % self.read_log()[-800:])
+
+    def _preexec(self):
+        import resource
+
+        if self.nofile:
+            resource.setrlimit(resource.RLIMIT_NOFILE, (self.nofile, resource.getrlimit(resource.RLIMIT_NOFILE)[1]))
+        if self.affinity:
+            os.sched_setaffinity(0, self.affinity)
 
     def alive(self):
         return self.proc is not None and self.proc.poll() is None
